@@ -589,8 +589,10 @@ def judge(prop_mode, attempted, acked, intended, plain, got, outcome, policy):
                             nxt = i
                             break
                     if nxt is None:
+                        # is it at least record-shaped, i.e. decoded under a descriptor that some written record had?
+                        shaped = isinstance(e, list) and len(e) == 3 and e[0] != "NOT-A-RECORD" and any(a[:2] == e[:2] for a in attempted if isinstance(a, list))
                         v.append(_viol("C04.beyond-damage", "a record was yielded after the damage point that was never written (or out of order): %s" % short(e, 200),
-                                       {"yielded": len(got), "expected": len(exp)}))  # fmt: skip
+                                       {"yielded": len(got), "expected": len(exp), "misaligned_after_damage": True, "record_shaped": bool(shaped), "policy": policy}))  # fmt: skip
                         break
                     last = nxt
     if clean and outcome != "end":
@@ -957,7 +959,19 @@ def shrink_candidates(plan):
             break
 
 
-KNOWN = {}
+def _partial_frame_then_more(plan, viol):
+    """Known finding (format limitation): under the continue policy a frame was persisted only in part (a short raw
+    write, then an error), the caller went on writing, and the reader - which has no checksum or resynchronisation
+    marker to go by - took the partial body plus the bytes of the following frames for one frame that happens to be
+    valid msgpack of the right shape.  Only a *record-shaped* yield from *misaligned* bytes is excused; a non-record
+    object, a yield from an aligned stream, or anything under fail-stop is not."""
+    info = viol.get("info") or {}
+    f = viol.get("fault") or {}
+    kinds = [f.get("kind")] + [g.get("kind") for g in f.get("faults", [])]
+    return bool(info.get("policy") == "continue" and info.get("misaligned_after_damage") and info.get("record_shaped") and "raw_write_short" in kinds)
+
+
+KNOWN = {"partial-frame-then-more-frames": _partial_frame_then_more}
 
 
 def mutate(plan, rng):
